@@ -150,7 +150,7 @@ type mSigning struct {
 	sameBlock bool // aggregated in the block of its expiry height
 }
 
-type tssObs struct{ c03, c05, c10, c13 bool }
+type tssObs struct{ c03, c05, c09, c10, c13 bool }
 
 type tssWorld struct {
 	c       tssCase
@@ -174,6 +174,9 @@ type tssWorld struct {
 	// C13 model
 	escrow   sdk.Coins
 	expected map[string]sdk.Coins // expected balances of tracked accounts
+	seed          []byte // rolling seed of the block being observed
+	c09Checked    int
+	c09Choice     bool
 	// oracle source
 	oracleReqs    []uint64
 	oracleCount   uint64
@@ -608,6 +611,7 @@ func parseU(s string) uint64 { var x uint64; fmt.Sscan(s, &x); return x }
 // observe processes one executed block: tx results in order, then end-block events, then state comparison.
 func (w *tssWorld) observe(block []*builtTx, res *sim.BlockResult) bool {
 	h := res.Height
+	w.seed = w.ch.App.RollingseedKeeper.GetRollingSeed(w.ch.Ctx())
 	deactivated := map[string]bool{}
 	var endFailed []uint64
 	retriedInEnd := map[uint64]bool{}
@@ -628,6 +632,32 @@ func (w *tssWorld) observe(block []*builtTx, res *sim.BlockResult) bool {
 				sid, attempt := parseU(sim.Attr(e, "signing_id")), parseU(sim.Attr(e, "attempt"))
 				addrs, pds, pes, mids := sim.Attrs(e, "address"), sim.Attrs(e, "pub_d"), sim.Attrs(e, "pub_e"), sim.Attrs(e, "member_id")
 				att := &mAttempt{created: h, expiry: h + int64(w.c.Period), submitted: map[string]bool{}}
+				if w.obs.c09 {
+					// reference committee: partial Fisher-Yates over the members that are active and hold a queued nonce,
+					// in member-id order, driven by DRBG(rolling seed, signing id || attempt, chain id); result sorted by id
+					var avail []string
+					for _, m := range w.grp.Members {
+						if w.tssActive[m.Addr] && len(w.queue[m.Addr]) > 0 {
+							avail = append(avail, m.Addr)
+						}
+					}
+					nonce := append(sdk.Uint64ToBigEndian(sid), sdk.Uint64ToBigEndian(attempt)...)
+					if d, derr := ref.NewDrbg(w.seed, nonce, []byte(w.ch.Cfg.ChainID)); derr == nil && len(avail) >= w.c.T {
+						var want []string
+						for _, i := range ref.PartialFisherYatesRef(d, len(avail), w.c.T) {
+							want = append(want, avail[i])
+						}
+						if fmt.Sprint(want) != fmt.Sprint(addrs) {
+							w.fail(true, "C09/signers", "signing %d attempt %d: chain assigned %v, sampling specification over available members %v gives %v", sid, attempt, addrs, avail, want)
+						}
+						w.c09Checked++
+						if len(avail) > w.c.T {
+							w.c09Choice = true
+						}
+					} else if len(avail) < w.c.T {
+						w.fail(true, "C09/too-few-signers", "signing %d attempt %d assigned %d members although only %d are available", sid, attempt, len(addrs), len(avail))
+					}
+				}
 				seen := map[string]bool{}
 				for i, a := range addrs {
 					d, _ := hex.DecodeString(pds[i])
